@@ -17,6 +17,12 @@ CLAIMS = {
          "Modelled (compared per case, not verified): path.Clean, net/url decoding, ServeMux cleanPath/redirect, http.Dir.Open, serveFile. Outside the model: symlinks, permissions, NAME_MAX, Range/conditional requests.", "6/C19"),
  "C14": ("Theorems for EVERY node forest (whatever html.ParseFragment returns for any byte string) and every well-formed allow-list: output is in the SafeDoc grammar (escaped text, start/end tags of allow-listed elements with only allow-listed attributes and escaped values), every '<' opens an allow-listed tag, empty allow-list => no '<', comments/doctypes contribute nothing, text content round-trips through escaping; soundness and fuel of the executable SafeDoc checker. Correspondence: real StriptagsFunc.Func and html.ParseFragment on generated/mutated fragments; forest dumped to Gallina, model output and checker judged inside Coq; x/net/html Tokenizer as independent oracle on Go's output.",
          "html.ParseFragment/Tokenizer (x/net/html) are outside the model; html.EscapeString modelled as esc6; ToLower ASCII only; a browser is represented by the SafeDoc grammar.", "6/C14"),
+ "C01": ("Theorems (all values/integers in range): the operator table maps every core operator to its helper; each helper agrees with the JavaScript operator on same-type operands (add, sub, neg, mul, exact div, concatenation, string+number, < on numbers and strings, equality on numbers/strings/booleans), truthiness = ToBoolean on every scalar, && and || return the operand, printing = ToString. Correspondence: typed random expression trees (depth <= 7) rendered by the real engine, judged inside Coq against the model M (compile + executor) AND the independent ECMA-262 semantics S; an in-domain case where the engine's output differs from S is a violation.",
+         "The composition of the per-operator lemmas over arbitrary nesting (C01_compile_eval) is not yet a theorem: it rests on the correspondence run (not_yet_proved). otto parser not modelled here (C15). Listed findings F-C01-a,b,c,e.", "6/C01"),
+ "C04": ("Theorems: for EVERY JS expression constructor an escaped buffered code node lowers to static escaped text, a silent statement, null, or an action whose pipeline ends in the escaper (C04_wrap_shape); any action whose pipeline ends in the escaper writes escape(w) whatever data/variables/heap (C04_escaper_output, through the fuelled executor model); declarations write nothing; escape output is in the harmless grammar EscText, has none of < > quote apostrophe, and unescapes to the data (all byte strings); escape distributes over concatenation. Correspondence: templates with string-transparent carriers rendered twice by the real engine (hostile string / fresh marker); oracle on Go's own outputs inside Coq: out_h = replace_all m (escape h) out_m.",
+         "The single theorem C04_marker over all transparent contexts is not proved; the oracle checks it per case on the implementation. Repaired: F-C04-a (70a3212), F-C04-b (ae513a8).", "6/C04"),
+ "C05": ("For all attribute record lists the model of __attrs renders a concatenation of ' name=\"v\"' items with v in EscText which the reader parses back to exactly those items (C05_grammar, C05_reader); an escaped NUL-free value reads back as the original (C05_value_roundtrip); each name appears at most once in first-occurrence order (C05_collect_closed, C05_once_in_order, C05_rendered_closed); for non-class names the last record decides: false/null/undefined omitted, true -> name=\"name\" (C05_bool_nil); class accumulates its records in source order (C05_class_accumulates). The real engine's output equals the model and satisfies the source-level spec attr_spec (parsed in Coq from Go's own output, and re-read with the x/net/html tokenizer) on every generated case, each rendered in 3 fresh processes.",
+         "Source-level C05_spec, the joined-class-text closed form and C05_spread_order are oracle-checked per case, not proved (not_yet_proved). Domain: proper names, NUL-free strings, |n|<10^10, arrays only for class, unescaped only plain string literals (F-C05-d listed), <=1 &attributes block. 7 defects repaired.", "6/C05"),
 }
 TECH = "Coq proof over hand-written model + differential correspondence check judged in Coq"
 props = [json.loads(l)["id"] for l in open(os.path.join(V, "properties.jsonl"))]
